@@ -99,6 +99,12 @@ func newApp(c Case) *fiber.App {
 				return ctx.Render("tpl", fiber.Map{"dirtyown": ctx.Params("p1")})
 			case "type":
 				ctx.Type("json", "utf-8")
+			case "sendfile":
+				return ctx.SendFile(assetPath)
+			case "sendfilemax":
+				return ctx.SendFile(assetPath, fiber.SendFile{MaxAge: 86400})
+			case "sendfiledl":
+				return ctx.SendFile(assetPath, fiber.SendFile{Download: true, ByteRange: true})
 			}
 		}
 		return ctx.SendString("dirty")
@@ -107,6 +113,12 @@ func newApp(c Case) *fiber.App {
 		obs := vk.Observe(ctx, "lk", "other")
 		if ctx.Query("redir") == "1" {
 			return ctx.Redirect().To("/plain")
+		}
+		switch ctx.Query("sf") { // a file response: its headers are a function of this call's options alone
+		case "plain":
+			return ctx.SendFile(assetPath)
+		case "max":
+			return ctx.SendFile(assetPath, fiber.SendFile{MaxAge: 3600})
 		}
 		ctx.Set("X-Obs-Len", fmt.Sprint(len(obs)))
 		return ctx.Render("tpl", fiber.Map{"own": "1", "obs": strings.Join(obs, "\n")})
@@ -312,7 +324,10 @@ func firstDiff(a, b string) string {
 
 // ---- generator ------------------------------------------------------------------------------------------
 
-var allActs = []string{"locals", "viewbind", "hdr", "redir", "redirinput", "bindauto", "bindbody", "path", "method", "err", "status", "observe", "json", "render", "type"}
+var allActs = []string{"locals", "viewbind", "hdr", "redir", "redirinput", "bindauto", "bindbody", "path", "method", "err", "status", "observe", "json", "render", "type", "sendfile", "sendfilemax", "sendfiledl"}
+
+// assetPath: a small committed file served by the SendFile actions (the test binary runs in the package directory)
+const assetPath = "testdata/asset.txt"
 
 // flashes: well-formed message arrays, arrays of maps with missing fields, truncated encodings, arrays longer than
 // their content
@@ -379,7 +394,7 @@ func genCase(t *rapid.T) Case {
 		}
 		c.Hist = append(c.Hist, h)
 	}
-	c.Probe = Probe{P2: rapid.Bool().Draw(t, "pp2"), Query: rapid.SampledFrom([]string{"", "a=x", "n=bad", "a=x&b=1&b=2&n=7", "b=only"}).Draw(t, "pq"),
+	c.Probe = Probe{P2: rapid.Bool().Draw(t, "pp2"), Query: rapid.SampledFrom([]string{"", "a=x", "n=bad", "a=x&b=1&b=2&n=7", "b=only", "sf=plain", "sf=max"}).Draw(t, "pq"),
 		Redir: rapid.IntRange(0, 5).Draw(t, "predir") == 0, Headers: rapid.Bool().Draw(t, "phdr"), NewConn: rapid.IntRange(0, 3).Draw(t, "pnew") == 0,
 		Method: rapid.SampledFrom([]string{"GET", "GET", "POST"}).Draw(t, "pm")}
 	if rapid.IntRange(0, 1).Draw(t, "pflash") == 0 {
